@@ -59,6 +59,9 @@ impl GC {
     /// Sweeps all objects
     /// This is automatically called once the Garbage Collector is dropped
     pub fn destroy(&mut self) {
+        // Nothing is reachable any more: sweep with a bitmap of all zeroes
+        self.mark_bitmap.clear();
+        self.mark_bitmap.resize(self.objects.len(), false);
         self.sweep();
     }
 
@@ -73,7 +76,9 @@ impl GC {
         #[cfg(feature = "verif")]
         crate::verif::gc(crate::verif::GcEvent::RunBegin, self);
 
+        // One (unset) mark bit per managed object
         self.mark_bitmap.clear();
+        self.mark_bitmap.resize(self.objects.len(), false);
 
         // Mark all reachable objects
         for root in roots.iter() {
@@ -105,7 +110,8 @@ impl GC {
             object.free();
         }
 
-        self.mark_bitmap.truncate(self.objects.len());
+        // Indices have shifted, the marks are meaningless from here on
+        self.mark_bitmap.clear();
     }
 
     /// Marks the given object as reachable
@@ -115,12 +121,16 @@ impl GC {
             return;
         }
 
-        let index = unsafe {
-            let object_ptr: *mut Object = o.as_ptr().cast();
-            let universe_ptr: *const Object = self.objects.as_ptr().cast();
-            object_ptr.offset_from(universe_ptr) as usize
+        // The mark bit of an object lives at its position in the list of managed objects.
+        // Objects that are not managed by this collector are not ours to mark (or sweep).
+        let index = match self
+            .objects
+            .iter()
+            .position(|a| std::ptr::eq(a.as_ptr(), o.as_ptr()))
+        {
+            Some(index) => index,
+            None => return,
         };
-        debug_assert!(index < self.objects.len());
 
         if o.tag() == Type::Array {
             // Safety: we know the size of mark_bitmap.
